@@ -96,6 +96,11 @@ def run(F, tier, res):
             if good:
                 ok += 1
     res.rule('C14.PAIRING', n, 2, 'call sites of the file-header composer %s: guarded by handled != current, followed by handled := current' % [c.split('::')[-1] for c in composers], discharged=ok)
+    # RESET-ORDER (shared with C10): the pending header of the previous section is flushed before the fields it reads are overwritten
+    from .c10 import reset_order_rule, reset_rule, find_resetters
+    rs_, bd_ = find_resetters(F)
+    reset_rule(F, res, rs_, 'C14', ['minus_file', 'plus_file', 'minus_file_event', 'plus_file_event', 'current_file_pair', 'handled_diff_header_header_line_file_pair', 'diff_line'])
+    reset_order_rule(F, res, rs_, bd_, 'C14')
     # RIGHT-FILE
     n4 = ok4 = 0
     for p in sorted(F.fn_bodies):
